@@ -547,6 +547,11 @@ fn ctxt_id() -> usize {
             };
             Mutex::new(state)
         },""")]),
+ # ---- round 7: private helper extraction must not look like a new writer ----------------------------------------------------
+ ("B.spanguard_private_helper", ["C05", "C04", "C18"], "src/span.rs", [
+   ("    fn push_ctxt<C: Ctxt>(&self, ctxt: C, ctxt_props: impl Props) -> Frame<C> {",
+    "    fn begin_timer(&mut self, clock: T) {\n        self.state = SpanGuardState::Started(Timer::start(clock));\n    }\n\n    fn push_ctxt<C: Ctxt>(&self, ctxt: C, ctxt_props: impl Props) -> Frame<C> {"),
+   ("        self.state = SpanGuardState::Started(Timer::start(clock));\n    }\n\n    /**\n    Whether the span will call its completion.", "        self.begin_timer(clock);\n    }\n\n    /**\n    Whether the span will call its completion.")]),
 ]
 
 RENAMES = [
@@ -611,3 +616,19 @@ MULTI += [('B.retry_saturating_add',
     '            let Some(file_name) = self.file_set.pop() else {\n'
     '                break;\n'
     '            };')])]
+
+# Behaviour-preserving edits the checks are KNOWN to alarm on (documented limitation, DESIGN.md section 8): a step of a function that a
+# rule decides intraprocedurally is extracted into a helper function.  The rule no longer sees the step in the body it is phrased over and
+# fails closed.  Kept here so the limitation is measured, not hidden; run_benign reports them as ALARM-AS-DOCUMENTED.
+LIMITS = [
+ ("B.file_sync_helper", ["C10", "C07", "C11"], "emitter/file/src/lib.rs", [
+   ("""        file.file
+            .flush()
+            .map_err(|e| emit_batcher::BatchError::no_retry(e))?;
+        file.file
+            .sync_all()
+            .map_err(|e| emit_batcher::BatchError::no_retry(e))?;
+""", """        flush_and_sync(&mut file).map_err(|e| emit_batcher::BatchError::no_retry(e))?;
+"""),
+   ("fn is_file_in_set(file_name: &str, file_prefix: &str, file_ext: &str) -> bool {", "fn flush_and_sync(file: &mut ActiveFile) -> io::Result<()> {\n    file.file.flush()?;\n    file.file.sync_all()\n}\n\nfn is_file_in_set(file_name: &str, file_prefix: &str, file_ext: &str) -> bool {")]),
+]
